@@ -194,6 +194,14 @@ func uncalledAccessors(p *Prog, pk *packages.Package, entries []string) []string
 								}
 							}
 						}
+						// ... and for every interface that *embeds* the receiver's interface: the method is then the
+						// very same object (a helper taking the embedded CheckConfig serves LintConfig and
+						// BreakingConfig alike)
+						for i := 0; i < it.NumMethods(); i++ {
+							if it.Method(i) == sel.Obj() {
+								called[iname+"."+x.Sel.Name] = true
+							}
+						}
 					}
 				}
 			case ast.Expr:
